@@ -434,8 +434,62 @@ def r24(body):
     return _sub(r"\bfor\s+(\w+)\s+in\s+&\s*([\w\.]+)\s*\{", lambda m: "for %s in vx_it: %s.iter() {" % (m.group(1), m.group(2)), body)
 
 
+def _for_skip(body, method, borrow):
+    count = 0
+    pos = 0
+    while True:
+        m = re.compile(r"\bfor\s+(\w+)\s+in\s+([\w\.\s]+?)\s*\.\s*%s\s*\(\s*\)\s*\.\s*skip\s*\(\s*(\w+)\s*\)\s*\{" % method).search(body, pos)
+        if not m:
+            break
+        j = _match_brace(body, m.end() - 1)
+        inner = body[m.end():j]
+        if re.search(r"\bcontinue\b", inner):
+            pos = m.end()
+            continue      # side condition not met: leave it (the unit then loses its anchor)
+        ix = "vx_ix%d" % count if count else "vx_ix"
+        place = "".join(m.group(2).split())
+        head = "{ let mut %s: usize = %s; while %s < %s.len() { let %s = %s%s[%s];" % (ix, m.group(3), ix, place, m.group(1), borrow, place, ix)
+        head = _pad(m.group(0), head)
+        tail = "%s += 1; } }" % ix
+        body = body[:m.start()] + head + inner + tail + body[j + 1:]
+        pos = m.start() + len(head)
+        count += 1
+    return body, count
+
+
+@rule("R25", "for P in V.iter().skip(N) { B } -> { let mut vx_ix = N; while vx_ix < V.len() { let P = &V[vx_ix]; B vx_ix += 1; } }   [desugaring of the slice iterator: skip(N) past the end yields nothing, as does the loop; side condition: no `continue` in B]")
+def r25(body):
+    return _for_skip(body, "iter", "&")
+
+
+@rule("R25b", "for P in V.iter_mut().skip(N) { B } -> the same index loop with `let P = &mut V[vx_ix];`")
+def r25b(body):
+    return _for_skip(body, "iter_mut", "&mut ")
+
+
+@rule("R26", "V.splice(N.., W); (result dropped) -> vx_vec_splice_tail(&mut V, N, W);   [std contract: panics unless N <= len; afterwards V == old V[..N] ++ W]")
+def r26(body):
+    return _sub(r"([\w\.\s]+?)\s*\.\s*splice\s*\(\s*(\w+)\s*\.\.\s*,\s*(\w+)\s*\)\s*;",
+                lambda m: "%svx_vec_splice_tail(&mut %s, %s, %s);" % (re.match(r"\s*", m.group(1)).group(0), "".join(m.group(1).split()), m.group(2), m.group(3)), body)
+
+
+@rule("R27", "E.is_some_and(|P| B) -> match E { Some(P) => B, None => false }   [Option::is_some_and is `match self { None => false, Some(x) => f(x) }`; the closure is inlined; side condition: B is an expression without `return`/`?`]")
+def r27(body):
+    def rep(m):
+        if re.search(r"\breturn\b|\?", m.group(3)):
+            return m.group(0)
+        return "match %s { Some(%s) => %s, None => false }" % (" ".join(m.group(1).split()), m.group(2).strip(), m.group(3).strip())
+    out, c = _sub(r"((?:self\s*\.\s*)?[\w]+(?:\s*\.\s*\w+)*?)\s*\.\s*is_some_and\s*\(\s*\|([^|]+)\|\s*([^{}();]+?)\s*\)", rep, body)
+    return out, c
+
+
+@rule("R28", "STATIC.load(Ordering::Relaxed) -> vx_atomic_load_STATIC()   [std contract: an atomic load returns some value of the atomic's type; the helper is declared per static in the unit]")
+def r28(body):
+    return _sub(r"\b([A-Z][A-Z0-9_]+)\s*\.\s*load\s*\(\s*Ordering\s*::\s*Relaxed\s*\)", lambda m: "vx_atomic_load_%s()" % m.group(1), body)
+
+
 # rules that are purely syntactic proof devices are applied only when a unit asks for them
-OPT_IN = {"R9", "R9b", "R15", "R17", "R21", "R22", "R24"}
+OPT_IN = {"R9", "R9b", "R15", "R17", "R21", "R22", "R24", "R25", "R25b", "R26", "R27", "R28"}
 
 
 @rule("R3b", "assert!(E, \"msg\") -> proved assertion on the executable operand   [strengthening: the runtime check must never fire]")
